@@ -599,3 +599,6 @@ if _os.path.isdir(_EQ):
         if _f.endswith('.diff'):
             ENTRIES['Q-' + _f[:-5]] = {'kind': 'equivalent', 'what': 'agent refactoring ' + _f, 'checks': _ALL,
                                        'patch': 'selftest/equiv/' + _f, 'edits': []}
+
+M('M05j', 'half-width can go negative: growth subtracted from the realtime side only', ['C05'],
+  [(SHM_LIB, 'self.bound_nsec + (duration_sec * self.max_drift_ppb as f64) as i64,', 'self.bound_nsec + (duration_sec * self.max_drift_ppb as f64) as i64 - 1_000_000,')], {'C05': ['C05.E3', 'C05.E7']})
